@@ -3,3 +3,8 @@
 Nothing in this package imports or executes code of the repository under analysis: every
 module is read as text and parsed with ``ast``.
 """
+import sys as _sys
+
+# the evaluator and the inliner are recursive over syntax trees: deep but finite
+if _sys.getrecursionlimit() < 12000:
+    _sys.setrecursionlimit(12000)
